@@ -55,6 +55,10 @@ def c16_r3(ctx):
     """No panic-capable site in local code (derives included) reachable from the two
     state-reading paths."""
     roots = ["history::History::<SystemType>::read_rule_history", "current::CurrentFileStates::<SystemType>::from_file"]
+    # the decoder calls back into this crate: the Deserialize impls (derived or written by hand) of
+    # the stored types, their visitors, and the conversions a `#[serde(try_from = ..)]` names
+    if any("bincode" in c.path and "deserialize" in c.path for fid in ctx.P.reachable_fns(roots) for c in ctx.P.fns[fid].calls):
+        roots = roots + sorted(fid for fid in ctx.P.fns if "serde::Deserialize" in fid or "serde::de::Visitor" in fid or "serde::de::DeserializeSeed" in fid)
     rows, problems, review = panics.judge(ctx.P, roots, HERE)
     ctx.inst("functions reachable from the state readers: %d" % len(ctx.P.reachable_fns(roots)))
     for (f, kind, bb, key, verdict) in rows:
